@@ -239,8 +239,8 @@ def run(out, tier, rng, work):
                 'parked at its k-th executed line of the package for 0.7 ms (thorough: 0.2, 0.7, 5 ms) of bus time, for EVERY k of the run, '
                 'while reception on the same stack goes on; oracle: payload delivered intact exactly once, both sides idle, job threads '
                 'alive; plus the reflection theorem on the extracted shared-access skeletons; non-trivial = every hold (each is a distinct schedule)'
-                " Plus shapes started from a timer callback and 're-use of the pair' (the next transfer to the same peer is started during the suspension right after the acknowledgement).")
-    out.assumptions = ['pre-emption inside a bytecode / dict operation, and the receive thread being pre-empted by the job thread, are not exhibited',
+                " Plus shapes started from a timer callback and 're-use of the pair' (the next transfer to the same peer is started during the suspension right after the acknowledgement); the other direction: the receiving thread suspended at every line of the frame handlers while the job thread runs a pass; an ECU that is originator and responder at once.")
+    out.assumptions = ['pre-emption inside a bytecode / dict operation is not exhibited; the receive thread is suspended at line boundaries of the transport layer frame handlers only (a whole job pass runs meanwhile), not inside the ECU dispatch or the application callbacks',
                        'the rely (which tables other methods delete from) is extracted syntactically; its soundness is covered by the correspondence of table contents (C01/C02)',
                        'serialisability of the send windows (T08.2) is not proved: the outcome level is by exhaustive exploration (testing)']
     out.extra['partial'] = ['T08.2 (commutation of the reply handlers with the rest of the pass) not proved']
